@@ -2,6 +2,7 @@
 #![cfg_attr(feature = "js", deny(unsafe_code))]
 #![warn(missing_docs)]
 #![cfg_attr(docsrs, feature(doc_cfg))]
+#![cfg_attr(remoc_verif, recursion_limit = "1024")]
 #![doc(
     html_logo_url = "https://raw.githubusercontent.com/ENQT-GmbH/remoc/master/.misc/Remoc.png",
     html_favicon_url = "https://raw.githubusercontent.com/ENQT-GmbH/remoc/master/.misc/Remoc.png"
